@@ -9,13 +9,10 @@
    All theorems quantify over every history, every behaviour table and every positive random stream. *)
 Require Import ZArith List Bool Lia Sorted.
 Require Import Verif.gen.Consts_loop Verif.LoopModel Verif.LoopProofs_C08a Verif.LoopProofs_C08b Verif.LoopProofs_C08c
-               Verif.LoopProofs_C08d Verif.LoopProofs_C08e Verif.LoopProofs_C08f Verif.LoopProofs_C08g Verif.LoopProofs_C08h.
+               Verif.LoopProofs_C08d Verif.LoopProofs_C08e Verif.LoopProofs_C08f Verif.LoopProofs_C08g Verif.LoopProofs_C08h
+               Verif.LoopProofs_C10 Verif.LoopProofs_C10w Verif.LoopProofs_C10b Verif.LoopProofs_C10d.
 Import ListNotations.
 Open Scope Z_scope.
-
-(* the tree contains the two repairs this property needs (probed by harness/consts/loop.c on every run) *)
-Theorem C08_tree_repaired : fx_sigdel tree_fixes = true /\ fx_polladd tree_fixes = true.
-Proof. exact tree_repaired. Qed.
 
 (* the kernel the check ran on behaves as the virtual epoll of harness and model assumes (probed on every run) *)
 Theorem C08_kernel_epoll_as_modelled : LOOP_KERNEL_EPOLL_AS_MODELLED = 1.
@@ -40,6 +37,16 @@ Proof. exact deleted_not_live. Qed.
 Theorem C08_job_timer_at_most_once : forall f beh h rnd post pre k u, fx_sigdel f = true -> good_rand rnd -> (k = 0 \/ k = 1) ->
   out (run_history_fx f beh h rnd) = post ++ EvInv k u :: pre -> ~ In (EvInv k u) post /\ ~ In (EvInv k u) pre.
 Proof. exact job_timer_at_most_once. Qed.
+
+(* exactly once, liveness half with its bound (workloads without deletions and signal registrations): the job at position k
+   of its level's job list has entered its callback - EvInv in the log of the final state - after 3 * (k / to_process + 1)
+   consecutive full turns of a loop that is not stopped; with C08_job_timer_at_most_once: exactly once.  An expired timer
+   (C08_timer_due_is_queued) and a ready descriptor (C08_fd_event_queues) are on that list from the turn they became due *)
+Theorem C08_job_entered_within : forall beh envs rs st st' rs' ts p k u key,
+  workload beh -> nosig st -> length envs = (3 * (Z.to_nat (Z.of_nat k / LOOP_TO_PROCESS) + 1))%nat ->
+  turns beh envs rs st = (st', rs', ts) -> (forall t, In t ts -> ti_returned t = false) ->
+  nth_error (jq st p) k = Some (QJob u key) -> In (EvInv 0 u) (out st').
+Proof. exact job_entered_within. Qed.
 
 (* FIFO per priority (state form): in every reachable state the jobs of one priority sit on job_head ++ wait_head in the
    order of their qb_loop_job_add calls (uids are handed out in call order), and qb_loop_run_level always dispatches the
@@ -75,6 +82,11 @@ Proof. exact stale_timer_rejected. Qed.
 Theorem C08_stale_poll_event_dropped : forall st data bits n e, nth_error (polls st) (Z.to_nat (data mod TWO32)) = Some e ->
   p_check e <> data / TWO32 -> poll_event (data, bits) (n, st) = (n, emit EvUsleep st).
 Proof. exact stale_poll_event_dropped. Qed.
+
+(* a pending timer (ACTIVE slot) has a heap entry and only pending timers have one, in every reachable state *)
+Theorem C08_active_timer_on_heap : forall f beh h rnd i t, fx_sigdel f = true -> good_rand rnd ->
+  nth_error (timers (run_history_fx f beh h rnd)) i = Some t -> (t_exp t <> None <-> t_state t = Active).
+Proof. exact active_timer_on_heap. Qed.
 
 (* timers, liveness step: after the timer source's turn (expire_the_timers) no heap entry is left whose expiry lies before the
    clock - every due timer has been moved to the job list of its priority (C10 bounds its wait there; at-most-once above) *)
@@ -124,6 +136,31 @@ Theorem C08_poll_add_failure_refuted :
   cb_after_last_poll_del (out (run_history_fx fixes_polladd_missing beh_none hist_polladd [])) = 2%nat.
 Proof. exact poll_add_failure_refuted. Qed.
 
+(* signal handles are raw pointers the API can not validate: using one after its registration was freed (second delete;
+   delete from inside the signal's own callback followed by a non-zero return) is outside the API contract - the model marks
+   it with EvUaf and the generators never do it.  With a handle whose registration exists no freed memory is touched *)
+Theorem C08_signal_live_handle_no_uaf : forall p g k h st s, sig_find h st = Some s ->
+  uaf (snd (signal_del h st)) = uaf st /\ uaf (snd (signal_mod p g k h st)) = uaf st.
+Proof. exact signal_ops_live_no_uaf. Qed.
+
+(* descriptor numbers closed and reused without poll_del: as found the stale entry shadows the new one (refuted, replayed on
+   the real library); repaired (fixes/C08-poll-add-live-fd) an add of a number that still has a live entry is refused with
+   -EEXIST and changes nothing, so an add that goes through never creates a second live entry for a number *)
+Theorem C08_fd_reuse_refuted :
+  last_poll_del_result (out (run_history_fx fixes_pollreuse_missing beh_none hist_fdreuse [])) = Some 0 /\
+  cb_after_last_poll_del (out (run_history_fx fixes_pollreuse_missing beh_none hist_fdreuse [])) = 1%nat.
+Proof. exact fd_reuse_refuted. Qed.
+Theorem C08_poll_add_refuses_live_fd : forall g p fd ev key st, fx_pollreuse (fx st) = true ->
+  existsb (fd_is_live fd) (polls st) = true -> poll_add_gen g p fd ev key st = (- LOOP_EEXIST, st).
+Proof. exact poll_add_refuses_live_fd. Qed.
+Theorem C08_poll_add_ok_means_fresh_fd : forall g p fd ev key st, fx_pollreuse (fx st) = true ->
+  fst (poll_add_gen g p fd ev key st) = 0 -> existsb (fd_is_live fd) (polls st) = false.
+Proof. exact poll_add_ok_means_fresh_fd. Qed.
+Example C08_example_fd_reuse_repaired :
+  cb_after_last_poll_del (out (run_history_fx fixes_all beh_none hist_fdreuse [])) = 0%nat /\
+  existsb (fun e => match e with EvRet 6 r => r =? - LOOP_EEXIST | _ => false end) (out (run_history_fx fixes_all beh_none hist_fdreuse [])) = true.
+Proof. exact fd_reuse_repaired_witness. Qed.
+
 (* non-vacuity *)
 Example C08_example_history :
   map (fun e => match e with EvInv k u => k * 100 + u | EvDel k u => - (k * 100 + u) | _ => 0 end)
@@ -135,12 +172,18 @@ Example C08_example_repaired :
   length (filter (fun e => match e with EvInv 3 2 => true | _ => false end) (out (run_history_fx fixes_all beh_none hist_sigdel []))) = O.
 Proof. exact signal_del_repaired_witness. Qed.
 
+(* LAST, so that on a tree without the repairs only this obligation breaks: the tree the constants were probed from
+   contains the two repairs the theorems above are about (behavioural probes of harness/consts/loop.c, on every run) *)
+Theorem C08_tree_repaired : fx_sigdel tree_fixes = true /\ fx_polladd tree_fixes = true /\ fx_pollreuse tree_fixes = true.
+Proof. exact (conj (eq_refl true) (conj (eq_refl true) (eq_refl true))). Qed.
+
 Print Assumptions C08_tree_repaired.
 Print Assumptions C08_kernel_epoll_as_modelled.
 Print Assumptions C08_wf.
 Print Assumptions C08_del_never_again.
 Print Assumptions C08_deleted_not_registered.
 Print Assumptions C08_job_timer_at_most_once.
+Print Assumptions C08_job_entered_within.
 Print Assumptions C08_fifo_queue_order.
 Print Assumptions C08_run_level_takes_head.
 Print Assumptions C08_job_del_logs.
@@ -148,6 +191,7 @@ Print Assumptions C08_timer_del_logs.
 Print Assumptions C08_signal_del_logs.
 Print Assumptions C08_stale_timer_rejected.
 Print Assumptions C08_stale_poll_event_dropped.
+Print Assumptions C08_active_timer_on_heap.
 Print Assumptions C08_timer_due_is_queued.
 Print Assumptions C08_fd_event_queues.
 Print Assumptions C08_fd_after_callback.
@@ -155,5 +199,10 @@ Print Assumptions C08_signal_one_clone_per_delivery.
 Print Assumptions C08_run_ends_with_stop_turn.
 Print Assumptions C08_signal_del_refuted.
 Print Assumptions C08_poll_add_failure_refuted.
+Print Assumptions C08_signal_live_handle_no_uaf.
+Print Assumptions C08_fd_reuse_refuted.
+Print Assumptions C08_poll_add_refuses_live_fd.
+Print Assumptions C08_poll_add_ok_means_fresh_fd.
+Print Assumptions C08_example_fd_reuse_repaired.
 Print Assumptions C08_example_history.
 Print Assumptions C08_example_repaired.
